@@ -273,6 +273,15 @@ crypt_gensalt_rn (const char *prefix, unsigned long count,
       return 0;
     }
 
+  /* A negative number of random bytes is never valid; converted to
+     size_t it would look like a huge amount of randomness and make the
+     individual gensalt functions read past the end of RBYTES.  */
+  if (rbytes && nrbytes < 0)
+    {
+      errno = EINVAL;
+      return 0;
+    }
+
   /* If the prefix is 0, that means to use the current best default.
      Note that this is different from the behavior when the prefix is
      "", which selects DES.  HASH_ALGORITHM_DEFAULT is not defined when
